@@ -135,7 +135,9 @@ def generated_documents(tier, seed, n_random=None):
 
 
 def _rec(name, bound, evaluations, failures):
-    return dict(name=name, bound=bound, evaluations=evaluations, failures=failures[:50], n_failures=len(failures))
+    import inspect
+    return dict(name=name, bound=bound, evaluations=evaluations, failures=failures[:50], n_failures=len(failures),
+                seam_func=inspect.stack()[1].function)       # lets `check.py Cxx --replay FILE` re-run the seam on the current tree
 
 
 def _exc(ex):
